@@ -21,6 +21,8 @@ import json
 import os
 import sys
 
+sys.path.insert(0, os.path.dirname(os.path.abspath(__file__)))
+
 REPO = os.environ.get("VERIF_REPO", "/repo")
 SRC = os.path.join(REPO, "src", "pyunicorn")
 HERE = os.path.dirname(os.path.abspath(__file__))
@@ -767,7 +769,7 @@ def lru_maxsize(classes):
     return 32
 
 
-def to_lean(tables):
+def to_lean(tables, modes=None):
     names = {}
 
     def fid(n):
@@ -779,7 +781,8 @@ def to_lean(tables):
         return "[" + ", ".join(str(x) for x in xs) + "]"
 
     lines = ["/- GENERATED by translate/gen_C01.py from the current /repo working tree — do not edit. -/",
-             "import Pyunicorn.Model.MemoNested", "namespace Pyunicorn.Generated.StructC01",
+             "import Pyunicorn.Model.MemoNested", "import Pyunicorn.Model.MemoMode",
+             "namespace Pyunicorn.Generated.StructC01",
              "open Pyunicorn.Memo", ""]
     tabs = []
     for cname, t in tables.items():
@@ -835,6 +838,35 @@ def to_lean(tables):
                  ",\n".join(f'  ("{c}", tbl_{c})' for c in tabs) + "]\n")
     lines.append("def allNTables : List (String × NTable) := [\n" +
                  ",\n".join(f'  ("{c}", ntbl_{c})' for c in tabs) + "]\n")
+    # ---- round 4: assignment events of constructors and public mutators (translate/c01_mode.py)
+    consts, sites, mtabs = {}, {}, []
+    for cname in tabs:
+        mt = (modes or {}).get(cname)
+        if mt is None:
+            continue
+
+        def ev(e):
+            f, kind, val, deps, site = e
+            if kind == "const":
+                return f"⟨{fid(f)}, .const {consts.setdefault(val, len(consts))}⟩"
+            sid = sites.setdefault((cname, tuple(site)), len(sites))
+            return f"⟨{fid(f)}, .expr {sid} {lst([fid(d) for d in deps])}⟩"
+
+        def evs(es, ind="      "):
+            return "[" + (",\n" + ind).join(ev(e) for e in es) + "]"
+        onames = [o for o in sorted(tables[cname]["mutators"]) if o in mt["entries"]]
+        mt["order"] = onames
+        body = ",\n".join(f"    /- {i} {o} -/ {evs(mt['entries'][o])}" for i, o in enumerate(onames))
+        lines.append(f"/-- `{cname}`: assignments of `__init__` and of every public mutator, in "
+                     f"execution order -/\ndef mtbl_{cname} : Pyunicorn.Mode.MTable := ⟨\n"
+                     f"    {evs(mt['entries'].get('__init__', []))},\n  [\n{body}]⟩\n")
+        mtabs.append(cname)
+    lines.append("def allMTables : List (String × Pyunicorn.Mode.MTable) := [\n" +
+                 ",\n".join(f'  ("{c}", mtbl_{c})' for c in mtabs) + "]\n")
+    to_lean.consts = consts
+    lines.append("def constNames : List String := [" +
+                 ", ".join('"' + n.replace('"', "'") + '"'
+                           for n, _ in sorted(consts.items(), key=lambda kv: kv[1])) + "]\n")
     lines.append("def fieldNames : List String := [" +
                  ", ".join('"' + n + '"' for n, _ in sorted(names.items(), key=lambda kv: kv[1])) + "]\n")
     lines.append("end Pyunicorn.Generated.StructC01")
@@ -844,11 +876,15 @@ def to_lean(tables):
 def main():
     out = sys.argv[1]
     tables = build_tables()
-    text, names = to_lean(tables)
+    import c01_mode
+    classes = parse_all()
+    modes = c01_mode.mode_tables(Analyzer(classes), classes, CFG, tables, UNKNOWN)
+    text, names = to_lean(tables, modes)
     if not os.path.exists(out) or open(out).read() != text:
         open(out, "w").write(text)
     jpath = os.path.splitext(out)[0] + ".json"
-    json.dump({"tables": tables, "names": names}, open(jpath, "w"), indent=1)
+    json.dump({"tables": tables, "names": names, "modes": modes, "consts": to_lean.consts},
+              open(jpath, "w"), indent=1)
     errs = [c for c, t in tables.items() if "error" in t]
     for c in errs:
         print("gen_C01: class not found:", c)
